@@ -162,7 +162,7 @@ func cmpNodeSetNodeSet(t iterator, op string, m, n interface{}) bool {
 func cmpStringNumeric(t iterator, op string, m, n interface{}) bool {
 	a := m.(string)
 	b := n.(float64)
-	return cmpNumberNumberF(op, b, stringToNumber(a))
+	return cmpNumberNumberF(op, stringToNumber(a), b)
 }
 
 func cmpStringString(t iterator, op string, m, n interface{}) bool {
